@@ -410,6 +410,10 @@ impl Connack {
         }
         let flags = data[cursor];
         cursor += 1;
+        if (flags & 0xFE) != 0 {
+            // bits 7-1 of the Connect Acknowledge Flags are reserved and must be 0
+            return Err(MqttError::MalformedPacket);
+        }
         let _session = (flags & 0x01) != 0;
         let code = data[cursor];
         cursor += 1;
